@@ -84,6 +84,7 @@ package fiber
 // contract deps/maps.spec): a Map the application shares between requests never receives one request's bindings.
 //@ func (*DefaultCtx).Render
 //@   requires wf-immutable: wfImmutable(c)
+//@   atcall @fasthttp.(*ResponseHeader).SetContentType: [C07] constant-content-type: contentType == MIMETextHTMLCharsetUTF8 && cleanValue(contentType)
 //@   atcall (*DefaultCtx).renderExtensions: [C05] never-the-map-of-the-handler: typeis(old(bind), Map) ==> unbox(bind, Map) != unbox(old(bind), Map)
 //@   loop 1
 //@     invariant index-in-range: -1 <= i && i < len(c.app.mountFields.appListKeys)
